@@ -1,6 +1,6 @@
 """C02 (lattice family; see latfam.py)."""
-from . import latfam
+from . import latfam, util
 
-globals().update(latfam.module('C02', ['C02_getitem_objects', 'C02_getitem_properties', 'C02_is_concept_objects', 'C02_is_concept_properties', 'C02_contains_query', 'C02_contains_query_properties', 'C02_least', 'C02_least_properties', 'C02_monotone', 'C02_idempotent', 'C02_monotone_properties', 'C02_idempotent_properties', 'C02_mapping_lookup_partial', 'C02_mapping_lookup_total'],
+globals().update(latfam.module('C02', util.theorems('C02'),
     'contexts: EXH/FAM/WIDE/RND; queries: all non-empty subsets of either side (<=5 quick / 8 thorough members, else structured+random), duplicates, mixed and unknown labels; lattice[items], lattice(props), lattice[()], lattice(()), lattice[i]; non-trivial = closure strictly larger than some query; distinct by table',
-    extra_targets=['Tie/Matrices.vo'], partial='lattice-level lookups: that the mapping lookup cannot miss is tied by correspondence until C03 completeness is proved'))
+    extra_targets=['Tie/Matrices.vo'], partial=''))
